@@ -38,6 +38,11 @@ structure DSt where
   ckReq : Bool := false    -- at the start of a `ckpt` op: deployed, nothing pending, nobody dead ⇒ the round must complete
   tSeen : Bool := false    -- a checkpoint was started during the current op
   prePend : Bool := false  -- a checkpoint was pending when the current op began
+  -- while `echo`: what is still followed so that the model can re-synchronise at the next deployment on fresh processes
+  maxT : Nat := 0              -- largest checkpoint id started while the model was not following
+  untrusted : List Nat := []   -- checkpoints completed (or possibly completed) while not following: contents unknown
+  kfCount : Nat := 0           -- tagged deviations so far in this case
+  resyncs : Nat := 0
 
 def keyBytes (k : Nat) : Bytes := (0x6b : UInt8) :: (toString k).toList.map (fun c => UInt8.ofNat c.toNat)
 
@@ -214,6 +219,13 @@ def applyTok (d : DSt) (tok : String) : DSt × String :=
       match act d (.kill (natOr w)) with
       | some (d', _) => (d', tok)
       | none => bad "kill"
+    | ["xr", w] =>
+      -- stopped itself in a healthy deployment because its runner was answered "operator not ready" (the runner's
+      -- watermark ticker starts at its own Deploy; start-up race of the code, counted in the evidence): a failure
+      match act d (.kill (natOr w)) with
+      | some (d', _) => (d', tok)
+      | none => bad "kill"
+    | "xu" :: _ => bad "a-worker-stopped-itself-and-nothing-in-the-schedule-explains-it"
     | ["Q"] => (d, waitAnswer d)
     | ["NQ"] => (d, waitAnswer d)
     | ["done"] => (d, ckptAnswer d)
@@ -255,10 +267,57 @@ def firstDiff : List String → List String → Option String
   | a :: _, [] => some a
   | [], _ => none
 
+/-- While the model cannot follow the implementation (after a tagged deviation) it still tracks what a later
+deployment on fresh processes depends on: which *trusted* checkpoints (complete before the deviation, so their contents
+are the model's) get published, which ids are used up, who died. At an `R:` whose restored checkpoint is the model's newest
+published one (the implementation's id is the hint), `restart` determines the whole state again: every process is new,
+channels and the pending checkpoint are discarded, state and cursors are the checkpoint's. From there on the case is
+validated again. A checkpoint of unknown contents that is published later sends the model back to echoing. -/
+def echoTok (d : DSt) (tok : String) : DSt :=
+  match tok.splitOn ":" with
+  | ["t", id] => { d with maxT := max d.maxT (natOr id), untrusted := natOr id :: d.untrusted }
+  | ["p", id] =>
+    if d.untrusted.contains (natOr id) then d else
+    match d.s.writing.findIdx? (fun c => c.id == natOr id) with
+    | some i => match act d (.publish i) with
+      | some (d', _) => d'
+      | none => d
+    | none => { d with untrusted := natOr id :: d.untrusted }
+  | ["kj"] => { d with s := { d.s with writing := [] } }   -- the job process died: its publications in flight are gone
+  | ["R", n, ck, cs, j] =>
+    let mine := match newest d.s.published with
+      | some c => toString c.id
+      | none => "none"
+    -- the implementation restores its newest published checkpoint; if that is the model's newest one, nothing of
+    -- unknown contents has been published since
+    if ck == mine then
+      match act d (.restart (natOr n) (j == "j")) with
+      | some (d', _) =>
+        -- the same id must also be the same checkpoint (ids are used again after a job restart): the cursors agree
+        if joinWith "." ((List.range d.nsplits).map fun sp => toString (d'.s.cursor sp)) != cs then d else
+        let s' := if j == "j" then d'.s else { d'.s with nextId := max d'.s.nextId (d.maxT + 1) }
+        { d' with s := s', echo := false, ok := true, live := false, resyncs := d.resyncs + 1,
+                  untrusted := if j == "j" then [] else d.untrusted }
+      | none => d
+    else d
+  | _ => d
+
+/-- a line met while echoing: tokens are echoed (and tracked by `echoTok`) until a deployment on fresh processes
+re-synchronises the model; the tokens after that `R:` are validated as usual -/
+def echoLine (d : DSt) : List String → List String → DSt × List String
+  | [], acc => (d, acc.reverse)
+  | t :: ts, acc =>
+    if d.echo then echoLine (echoTok d t) ts (t :: acc)
+    else if (match t.splitOn ":" with | ["p", id] => d.untrusted.contains (natOr id) | _ => false) then
+      -- a checkpoint of unknown contents is published right after the re-synchronisation: back to echoing
+      echoLine { d with echo := true } ts (t :: acc)
+    else if d.ok then
+      let (d', o) := applyTok d t
+      echoLine d' ts (o :: acc)
+    else (d, acc.reverse)
+
 def step' (d : DSt) (ws : List String) : DSt × String :=
   let (op, toks) := splitAt2 ws
-  if d.echo then (d, joinWith " " toks) else
-  if !d.ok then (d, "desync") else
   let d := match op with
     | "feed" :: sp :: ks :: _ => { d with fed := d.fed.modify (natOr sp) (· + (ks.splitOn ",").length) }
     | "probe" :: _ => (List.range d.nkeys).foldl (fun (d : DSt) k => { d with fed := d.fed.modify (k % d.nsplits) (· + 1) })
@@ -266,6 +325,14 @@ def step' (d : DSt) (ws : List String) : DSt × String :=
     | ["pause"] => { d with paused := true }
     | ["resume"] => { d with paused := false }
     | _ => d
+  if d.echo then
+    -- the line is echoed; if a deployment on fresh processes in it lets the model re-synchronise, the tokens after
+    -- that `R:` are not validated (they are few: the first reads), everything from the next line on is
+    let d := { d with op := op, tSeen := false, prePend := false, ckReq := false }
+    let (d', out) := echoLine d toks []
+    (d', joinWith " " out)
+  else
+  if !d.ok then (d, "desync") else
   let d := { d with op := op, tSeen := false, prePend := d.s.pending.isSome, ckReq := 0 < d.s.n && d.s.pending.isNone && d.s.dead.isEmpty }
   match op with
   | ["end"] =>
@@ -273,10 +340,24 @@ def step' (d : DSt) (ws : List String) : DSt × String :=
   | _ =>
     let (d', out) := applyToks d toks []
     let line := joinWith " " out
+    -- a checkpoint of unknown contents (completed while the model was not following) is published after a
+    -- re-synchronisation: the next restart would restore it; back to echoing, nothing new to report
+    if !d'.ok && ((firstDiff toks out).map (fun t => match t.splitOn ":" with
+        | ["p", id] => d.untrusted.contains (natOr id) | _ => false)).getD false then
+      ((echoLine { d with echo := true } toks []).1, joinWith " " toks)
     -- model of the code as it is after a live redeploy: whatever the implementation did; the spec side is the
     -- fresh-process model. Only the first deviation of a kind a stale loop can cause is the known finding.
-    if d'.live && line != joinWith " " toks && ((firstDiff toks out).map d39Kind).getD false then
-      ({ d' with echo := true }, joinWith " " toks ++ " #spec " ++ line ++ " #kf D39")
+    else if d'.live && line != joinWith " " toks && ((firstDiff toks out).map d39Kind).getD false then
+      -- the restore that no longer finds a checkpoint in the redeployed operator's own `checkpoints` document is
+      -- finding D50 (a database reopened in its directory drops earlier entries) reached through the live redeploy
+      let id := if ((firstDiff toks out).map (·.startsWith "!deploy-panic:failed_to_find_indicated_checkpoint")).getD false
+        then "D50" else "D39"
+      -- the checkpoint pending at this moment may still complete: its contents are not the model's
+      let pend := match d'.s.pending with | some p => [p.id] | none => []
+      let d'' := { d' with echo := true, kfCount := d'.kfCount + 1, untrusted := pend ++ d'.untrusted, maxT := d'.s.nextId - 1 }
+      -- what the rest of this line (from the deviating token on) means for a later re-synchronisation
+      let rest := toks.drop (out.length - 1)
+      ((echoLine d'' rest []).1, joinWith " " toks ++ " #spec " ++ line ++ " #kf " ++ id)
     else (d', line)
 
 def handle (lines : Array String) (i : Nat) (out : Array String) : Nat × Array String :=
